@@ -42,10 +42,15 @@ VARIABLES sc, M, N, ks, thr, Y
 vars == <<sc, M, N, ks, thr, Y>>
 
 YVals == {-2, 1, 3}
-\* right hand sides: every single column (two columns in the thorough tier) over YVals, and fixed
+\* right hand sides: every single column over YVals (in the thorough tier also with a second column
+\* that is a fixed function of the first), and fixed
 \* patterns with 3 and 5 columns, so that there are more right hand sides than basis functions
 WideY(n, S, v) == [i \in 1..n |-> [s \in 1..S |-> ((i * (s + v) + s * s) % 5) - 2]]
-YChoices(n) == [1..n -> [1..(IF Tier = "thorough" THEN 2 ELSE 1) -> YVals]]
+Turn(v) == CASE v = -2 -> 1 [] v = 1 -> 3 [] OTHER -> -2
+YChoices(n) == [1..n -> [1..1 -> YVals]]
+               \cup (IF Tier = "thorough"
+                     THEN {[i \in 1..n |-> <<y[i][1], Turn(y[i][1])>>] : y \in [1..n -> [1..1 -> YVals]]}
+                     ELSE {})
                \cup {WideY(n, S, v) : S \in {3, 5}, v \in 0..1}
 Init == /\ sc \in Scalars
         /\ M \in 1..(IF Tier = "thorough" THEN 3 ELSE 2)
